@@ -186,6 +186,10 @@ func init() {
 	intrinsics["context.WithTimeout"] = withCancel
 	intrinsics["context.WithDeadline"] = withCancel
 	intrinsics["context.WithValue"] = func(in *Interp, fn *ssa.Function, a []Value) Value { return a[0] }
+	intrinsics["internal/bytealg.MakeNoZero"] = func(in *Interp, fn *ssa.Function, a []Value) Value {
+		n := a[0].(BV).T
+		return in.newScalarSlice(types.Typ[types.Uint8], 8, n, n)
+	}
 	intrinsics["sort.Slice"] = sortSlice
 	intrinsics["sort.SliceStable"] = sortSlice
 }
@@ -518,6 +522,11 @@ func (in *Interp) vsIntrinsic(name string, fn *ssa.Function, a []Value) (Value, 
 			cells[i] = in.C.Extract(bits, 255-8*i, 248-8*i)
 		}
 		return SArray{A: &cellsArr{cells: cells, w: 8}, W: 8, N: in.u64(32)}, true
+	case "vsPendingTasks":
+		return BV{in.i64(int64(len(in.tasks)))}, true
+	case "vsRunTasks":
+		in.drainTasks()
+		return nil, true
 	case "vsFail":
 		in.recordFailure("assert", in.tagOf(a[0]), in.callerSite(), "vsFail reached", in.stackTrace())
 		panic(&pathEnd{reason: "violation"})
